@@ -2,9 +2,9 @@ package main
 
 import (
 	"flag"
-	"path/filepath"
 	"fmt"
 	"os"
+	"path/filepath"
 	"runtime/debug"
 	"sort"
 	"strconv"
